@@ -92,6 +92,7 @@ struct Task {
   // simulated pthread state
   std::map<int, void *> tls;
   bool detached = false, joined = false, is_thread = false, started = false;
+  bool timed_out = false;       // a timed wait ended by its deadline
   int native = -1;              // native thread id slot (pthread_t value - 1); slots of joined / finished detached threads are reused
   void *retval = nullptr;
   int prio = 0;                 // PCT priority
